@@ -475,10 +475,59 @@ class Printer:
             self.stmts(p['body'], 1)
             self.emit(0, 'end ' + p['kind'])
         self.stmts(prog['main'][at:], 0)
+        if prog.get('join'):
+            self.join_lines(prog['join'])
         text = '\n'.join(self.lines)
         if self.final_newline:
             text += '\n'
         return text
+
+    NOJOIN = ('declare ', 'type ', 'end type', 'sub ', 'function ', 'end sub', 'end function',
+              'data ', 'def')
+
+    def join_lines(self, spec):
+        """Write some consecutive lines as one line, `a : b` (QBASIC's statement
+        separator also joins block headers and terminators: `for i = 1 to 3 :
+        print i : next`).  Decisions come from the seed stored in the program,
+        so the text stays a pure function of the AST."""
+        import random
+        rj = random.Random(spec.get('seed', 0))
+        prob = spec.get('p', 0.2)
+        in_type = False
+        new = []
+        remap = {}       # old line number -> (new line number, column shift)
+        for i, ln in enumerate(self.lines, 1):
+            t = ln.strip().lower()
+            plain = not (in_type or t.endswith(':') or t.startswith(self.NOJOIN) or not t)
+            if t.startswith('type '):
+                in_type = True
+            if t == 'end type':
+                in_type = False
+            ok = plain and new and self._joinable_prev and rj.random() < prob \
+                and len(new[-1]) + len(t) < 180
+            if ok:
+                indent = len(ln) - len(ln.lstrip())
+                shift = len(new[-1]) + 3 - indent
+                new[-1] = new[-1] + ' : ' + ln.lstrip()
+                remap[i] = (len(new), shift)
+            else:
+                new.append(ln)
+                remap[i] = (len(new), 0)
+            # nothing may follow a single-line IF on its line (it would become
+            # part of the THEN / ELSE branch)
+            single_if = t.startswith('if ') and not t.endswith(' then')
+            self._joinable_prev = plain and not single_if and not (ok and self._prev_single_if)
+            if ok:
+                self._prev_single_if = self._prev_single_if or single_if
+            else:
+                self._prev_single_if = single_if
+            if self._prev_single_if:
+                self._joinable_prev = False
+        self.lines = new
+        self.pos = {k: (remap[ln][0], col + remap[ln][1]) for k, (ln, col) in self.pos.items()}
+
+    _joinable_prev = False
+    _prev_single_if = False
 
     def proc_head(self, p):
         ps = []
